@@ -116,7 +116,8 @@ impl TextAttribute {
         }
         let bg = match ice_mode {
             IceMode::Blink => self.background_color & 0b_0111 | if self.is_blinking() { 0b_1000 } else { 0 },
-            IceMode::Unlimited | IceMode::Ice => self.background_color & 0b_1111,
+            IceMode::Unlimited => self.background_color & 0b_1111 | if self.is_blinking() { 0b_1000 } else { 0 },
+            IceMode::Ice => self.background_color & 0b_1111,
         };
         (fg | bg << 4) as u8
     }
